@@ -62,9 +62,9 @@ fn blk(ctx: &mut Ctx) {
     ctx.subject(&name);
     let w = ctx.cfg.par;
     let cb = ctx.cfg.bs;
-    let (iv, _) = wl::iv(&mut ctx.rng, d.iv_len);
+    let (iv, _) = mode_iv(ctx, d.iv_len);
     let n = if fam == Family::Cfb8 { wl::nbytes(&mut ctx.rng, cb, w, ctx.tier).0.clamp(1, 300) } else { wl::nblocks(&mut ctx.rng, w, d.bs, ctx.tier).0.max(1) };
-    let (data, _) = wl::data(&mut ctx.rng, n * d.bs);
+    let (data, _) = mode_data(ctx, n * d.bs);
     // several cut points, chained
     let ncuts = ctx.rng.range(1, 4).min(n);
     let mut cuts: Vec<usize> = (0..ncuts).map(|_| ctx.rng.range(0, n)).collect();
@@ -177,10 +177,10 @@ fn buffered(ctx: &mut Ctx) {
     let name = format!("cfb-buf/{}", dir.name());
     ctx.subject(&name);
     let b = ctx.cfg.bs;
-    let (iv, _) = wl::iv(&mut ctx.rng, b);
+    let (iv, _) = mode_iv(ctx, b);
     let (len, rc) = wl::nbytes(&mut ctx.rng, b, ctx.cfg.par, ctx.tier);
     let len = len.max(1);
-    let (msg, _) = wl::data(&mut ctx.rng, len);
+    let (msg, _) = mode_data(ctx, len);
     let ncuts = ctx.rng.range(1, 4);
     let mut cuts: Vec<usize> = (0..ncuts).map(|_| ctx.rng.range(0, len)).collect();
     cuts.sort();
